@@ -219,6 +219,7 @@ Proof.
     + split; [apply Hplain; discriminate|split; [apply frame_same_heap; reflexivity|intros; reflexivity]].
   - (* PBWire *)
     destruct (nth_error (st_pblds s) i) as [b|] eqn:Eb; [|split; [exact I|split; [apply frame_same_heap; reflexivity|intros; reflexivity]]].
+    cbv zeta. generalize (resolve b name). clear name. intro name.
     destruct (dget name (p_edges b)) as [r0|] eqn:Eg.
     + assert (Hw0 : In r0 (wrefs s)).
       { eapply in_wrefs_pbld; [exact Eb|]. unfold pw, vals. apply dget_in in Eg. change r0 with (snd (name, r0)). apply in_map. exact Eg. }
@@ -229,6 +230,7 @@ Proof.
       apply frame_ext; [exact I|exists [f []]; reflexivity|auto|auto].
   - (* PBClear *)
     destruct (nth_error (st_pblds s) i) as [b|] eqn:Eb; [|split; [exact I|split; [apply frame_same_heap; reflexivity|intros; reflexivity]]].
+    cbv zeta. generalize (clear_key b name). clear name. intro name.
     cbn [alloc]. split; [apply inv_pbld_new_edge; assumption|split; [|intros; reflexivity]].
     apply frame_ext; [exact I|exists [[]]; reflexivity|auto|auto].
   - (* PBAlias *)
